@@ -80,7 +80,7 @@ type event struct {
 	Desc    int        `json:"desc,omitempty"`
 	Stale   int        `json:"stale,omitempty"` // build from the n-th older cached version of the region
 	// foreign
-	F      string `json:"f,omitempty"` // add-learner remove promote demote transfer split leave
+	F      string `json:"f,omitempty"` // add-learner remove promote demote transfer split leave shadow
 	FStore uint64 `json:"fstore,omitempty"`
 	FID    uint64 `json:"fid,omitempty"`
 }
@@ -108,6 +108,7 @@ type world struct {
 	opID    map[*operator.Operator]int
 	created []string // Coq ECreate terms by op (for events that failed to build: "")
 	inbox   []*pdpb.RegionHeartbeatResponse
+	dropped map[uint64]*pdpb.RegionHeartbeatResponse // last dropped command per region (foreign "shadow" replays its body)
 	nextPID uint64
 }
 
@@ -134,7 +135,8 @@ func newWorld(c *caseIn, rec *tikvsim.Recorder) *world {
 	}
 	rec.Collect() // nothing of an earlier case may leak into this one
 	return &world{c: c, tc: tc, oc: schedule.NewOperatorController(ctx, tc, rec.HB), rec: rec, cancel: cancel,
-		sims: map[uint64]*tikvsim.Sim{}, history: map[uint64][]*core.RegionInfo{}, opID: map[*operator.Operator]int{}, nextPID: 1000}
+		sims: map[uint64]*tikvsim.Sim{}, history: map[uint64][]*core.RegionInfo{}, opID: map[*operator.Operator]int{},
+		dropped: map[uint64]*pdpb.RegionHeartbeatResponse{}, nextPID: 1000}
 }
 
 func (w *world) version(rid uint64) int64 { return int64(w.sims[rid].Meta.GetRegionEpoch().GetVersion()) }
@@ -256,7 +258,7 @@ func (w *world) opsOf(ids []int) []*operator.Operator {
 	return out
 }
 
-func foreignMsg(sim *tikvsim.Sim, e event) *pdpb.RegionHeartbeatResponse {
+func foreignMsg(sim *tikvsim.Sim, e event, dropped *pdpb.RegionHeartbeatResponse) *pdpb.RegionHeartbeatResponse {
 	find := func(st uint64) *metapb.Peer {
 		for _, p := range sim.Meta.Peers {
 			if p.StoreId == st {
@@ -283,6 +285,13 @@ func foreignMsg(sim *tikvsim.Sim, e event) *pdpb.RegionHeartbeatResponse {
 		return &pdpb.RegionHeartbeatResponse{SplitRegion: &pdpb.SplitRegion{}}
 	case "leave":
 		return &pdpb.RegionHeartbeatResponse{ChangePeerV2: &pdpb.ChangePeerV2{}}
+	case "shadow":
+		// somebody else issues exactly the command of the operator that was lost on the way (body only: no epoch, no target)
+		if dropped == nil {
+			return &pdpb.RegionHeartbeatResponse{TransferLeader: &pdpb.TransferLeader{Peer: sim.Leader}}
+		}
+		return &pdpb.RegionHeartbeatResponse{ChangePeer: dropped.ChangePeer, ChangePeerV2: dropped.ChangePeerV2, TransferLeader: dropped.TransferLeader,
+			Merge: dropped.Merge, SplitRegion: dropped.SplitRegion}
 	}
 	panic("bad foreign " + e.F)
 }
@@ -399,6 +408,7 @@ func (w *world) exec(e event) (string, obs) {
 		m := w.inbox[idx]
 		w.inbox = append(w.inbox[:idx:idx], w.inbox[idx+1:]...)
 		if e.K == "drop" {
+			w.dropped[e.Rid] = m
 			return name + coqfmt.ZU(e.Rid), obs{Res: -1}
 		}
 		sim := w.sims[e.Rid]
@@ -411,7 +421,7 @@ func (w *world) exec(e event) (string, obs) {
 		return name + coqfmt.ZU(e.Rid), obs{Res: -1, Region: sim.Region(), RegVer: w.version(e.Rid), Deliver: d}
 	case "foreign":
 		sim := w.sims[e.Rid]
-		m := foreignMsg(sim, e)
+		m := foreignMsg(sim, e, w.dropped[e.Rid])
 		d := "DAccepted"
 		if err := sim.Apply(m); err != nil {
 			d = "DRejected"
@@ -579,6 +589,53 @@ func genSteps(r *rng.R, w *world, rid uint64) []stepSpec {
 	return out
 }
 
+// a foreign learner on a store without peer (always accepted outside a joint state)
+func genForeignAddLearner(r *rng.R, w *world, rid uint64) event {
+	occ := map[uint64]bool{}
+	for _, q := range w.sims[rid].Meta.Peers {
+		occ[q.StoreId] = true
+	}
+	s := uint64(1 + r.Intn(nStores))
+	for try := 0; try < 40 && occ[s]; try++ {
+		s = uint64(1 + r.Intn(nStores))
+	}
+	return event{K: "foreign", Rid: rid, F: "add-learner", FStore: s, FID: w.pid(w.c, s) + 500}
+}
+
+// a target that only demotes followers (and possibly adds a learner): with joint consensus the plan is
+// [.. ChangePeerV2Enter [] dv; ChangePeerV2Leave [] dv]
+func genDemoteTarget(r *rng.R, sim *tikvsim.Sim) ([]peerSpec, uint64) {
+	var ps []peerSpec
+	demoted := 0
+	for _, p := range sim.Meta.Peers {
+		role := "voter"
+		if p.Role == metapb.PeerRole_Learner {
+			role = "learner"
+		} else if p.StoreId != sim.Leader.GetStoreId() && (demoted == 0 || r.Pct(60)) {
+			role = "learner"
+			demoted++
+		}
+		id := p.Id
+		if r.Pct(50) {
+			id = 0
+		}
+		ps = append(ps, peerSpec{Store: p.StoreId, ID: id, Role: role})
+	}
+	if demoted > 0 && r.Pct(50) {
+		occ := map[uint64]bool{}
+		for _, p := range sim.Meta.Peers {
+			occ[p.StoreId] = true
+		}
+		for s := uint64(1); s <= nStores; s++ {
+			if !occ[s] {
+				ps = append(ps, peerSpec{Store: s, Role: "learner"})
+				break
+			}
+		}
+	}
+	return ps, 0
+}
+
 func genForeign(r *rng.R, w *world, rid uint64) event {
 	sim := w.sims[rid]
 	peers := sim.Meta.Peers
@@ -706,7 +763,9 @@ func runCase(rec *tikvsim.Recorder, c *caseIn, r *rng.R, mode string, maxEvents 
 			if forceNormal {
 				e.Level = 1
 			}
-			if r.Pct(22) {
+			if mode == "shadow" && r.Pct(60) {
+				e.Target, e.TLeader = genDemoteTarget(r, w.sims[rid])
+			} else if r.Pct(22) {
 				e.Steps = genSteps(r, w, rid)
 			} else {
 				e.Target, e.TLeader = genTarget(r, w.sims[rid])
@@ -716,7 +775,8 @@ func runCase(rec *tikvsim.Recorder, c *caseIn, r *rng.R, mode string, maxEvents 
 			}
 			do(e)
 		}
-		if mode == "lifecycle" {
+		if mode == "lifecycle" || mode == "shadow" {
+			shadow := mode == "shadow"
 			rid := w.rids[0]
 			viaWaiting := r.Pct(15)
 			forceNormal = viaWaiting
@@ -733,9 +793,26 @@ func runCase(rec *tikvsim.Recorder, c *caseIn, r *rng.R, mode string, maxEvents 
 				if r.Pct(45) {
 					foreignAt = r.Intn(8)
 				}
+				shadowAt := -1
+				if shadow {
+					shadowAt, foreignAt = r.Intn(4), -1
+				}
 				for round := 0; round < 10 && len(evs) < maxEvents; round++ {
 					if round == foreignAt {
 						do(genForeign(r, w, rid))
+					}
+					if round == shadowAt && len(w.inbox) > 0 {
+						// the operator's command is lost; somebody else changes the region and then does what the command asked for
+						do(event{K: "drop", Rid: rid})
+						for len(w.inbox) > 0 {
+							do(event{K: "drop", Rid: rid})
+						}
+						f := genForeign(r, w, rid)
+						if r.Pct(70) {
+							f = genForeignAddLearner(r, w, rid)
+						}
+						do(f)
+						do(event{K: "foreign", Rid: rid, F: "shadow"})
 					}
 					for len(w.inbox) > 0 {
 						if r.Pct(6) {
@@ -931,8 +1008,8 @@ func main() {
 		for k := 0; k < *n; k++ {
 			r := master.Fork(uint64(k))
 			c := &caseIn{MaxWaiting: 5, SameIDs: r.Pct(15)}
-			if r.Pct(60) {
-				c.AllocBase = 100
+			if r.Pct(60) || c.SameIDs {
+				c.AllocBase = 100 // the allocator never hands out an id a peer already has (peer ids are store ids 1..6 here)
 			}
 			switch r.Pick(55, 15, 30) {
 			case 0:
@@ -946,8 +1023,14 @@ func main() {
 				c.MaxWaiting = 1 + r.Intn(2)
 			}
 			mode := "lifecycle"
-			if r.Pct(45) {
+			switch r.Pick(45, 40, 15) {
+			case 1:
 				mode = "chaos"
+			case 2:
+				mode = "shadow"
+				if r.Pct(70) {
+					c.JointSupported, c.JointEnabled = true, true
+				}
 			}
 			c.Gen = mode
 			emit(runCase(rec, c, r, mode, 40))
